@@ -5,7 +5,8 @@ import ast
 
 from sa.core import Ob
 from sa.pm import AnalysisError, norm, body_nodes
-from sa import gi, df, ru, ct
+from sa import gi, df, ru, ct, sym
+from sa.pm import Undecided
 from sa.gi import FinSet, GuardWalker, FiniteAtomizer, IntSet, SymbolicAtomizer, iv
 
 BSC = "pycoin/coins/bitcoin/SolutionChecker.py"
@@ -22,7 +23,22 @@ ACP = {v for v in DOM if v & 0x80}
 NOFORK = {v for v in DOM if not v & 0x40}
 
 
-def _finite(ctx, f, pname="hash_type"):
+_REF = None
+
+
+def _ref():
+    global _REF
+    if _REF is None:
+        import os
+        _REF = ast.parse(open(os.path.join(os.path.dirname(os.path.dirname(os.path.abspath(__file__))), "spec", "ref_sighash.py")).read())
+    return _REF
+
+
+INTS = lambda t: t in ("hash_type", "i", "idx", "tx_in_idx", "unsigned_txs_out_idx", "pc", "new_pc", "signature_type", "base_type") or t.startswith(("len(", "self.FORKID"))
+
+
+def _leaf(ctx, f, pname="hash_type"):
+    """finite domain: every guard atom that depends on the hash type only is decided for all 256 values"""
     from sa.interp import Frame, Unknown
     it = ctx.interp
     mv = it.module(f.module.name)
@@ -32,19 +48,12 @@ def _finite(ctx, f, pname="hash_type"):
         if isinstance(val, Unknown):
             raise ValueError("unknown")
         return bool(val)
-    fa = FiniteAtomizer(DOM, evalf)
-    w = GuardWalker(fa)
-    exits = w.run(f.node.body)
-    return fa, w, exits
+    return sym.finite_leaf(DOM, evalf)
 
 
-def _set(fa, formula):
-    return set(gi.sat_set(formula, fa.univ(), fa.empty()).m)
-
-
-def _must(fa, formula):
-    """hash types for which the formula holds whatever the opaque atoms are"""
-    return set(DOM) - set(gi.sat_set(gi.f_not(formula), fa.univ(), fa.empty()).m)
+def _refcheck(ctx, rel, dotted, refname, key, finite=None, tree=None):
+    fi = ctx.p.functions.get(ctx.p.module(rel).name + "." + dotted) or ctx.func(rel, dotted)
+    return sym.against_reference(ctx, fi, tree or _ref(), refname, key, INTS, leaf=_leaf(ctx, fi, finite) if finite else None)
 
 
 def _fmt(s):
@@ -54,241 +63,77 @@ def _fmt(s):
     return "{%s}" % ",".join("0x%02x" % x for x in xs)
 
 
-def _is_zero32(ctx, f, e):
-    if e is None:
-        return False
-    t = norm(e)
-    if t in ("ZERO32", "b'\\x00' * 32"):
-        try:
-            v = ru.eval_in_module(ctx, f.module, e)
-            return v == b"\0" * 32
-        except Exception:
-            return False
-    return False
+def _is_zero32(e):
+    return e is not None and isinstance(e, ast.Constant) and e.value == b"\0" * 32
 
 
 # ------------------------------------------------------------------ C04.1
 def c04_1(ctx):
-    cells = 0
     for rel, cls in ((SEG, "SegwitChecker"), (GRS, "GroestlcoinSolutionChecker")):
-        # hashPrevouts: zero iff ANYONECANPAY
-        f = ctx.func(rel, cls + "._hash_prevouts")
-        fa, w, exits = _finite(ctx, f)
-        cells += fa.evaluated
-        zero = set()
-        for e in exits:
-            if e.kind == "return" and _is_zero32(ctx, f, e.value):
-                zero |= _set(fa, e.cond)
-        ctx.check(zero == ACP, "prevouts:%s" % cls, ctx.where(f),
-                  "%s._hash_prevouts is the zero hash for %s; BIP143 requires exactly the ANYONECANPAY types %s (difference: %s)"
-                  % (cls, _fmt(zero), _fmt(ACP), _fmt(zero ^ ACP)), sample={"function": f.qualname, "zero_for": _fmt(zero)})
-        # hashSequence: zero iff ACP or NONE or SINGLE
-        f = ctx.func(rel, cls + "._hash_sequence")
-        fa, w, exits = _finite(ctx, f)
-        cells += fa.evaluated
-        zero = set()
-        for e in exits:
-            if e.kind == "return" and _is_zero32(ctx, f, e.value):
-                zero |= _set(fa, e.cond)
-        want = ACP | NONE | SINGLE
-        ctx.check(zero == want, "sequence:%s" % cls, ctx.where(f),
-                  "%s._hash_sequence is the zero hash for %s; BIP143 requires ACP or NONE or SINGLE (base type taken with & 0x1f); difference: %s"
-                  % (cls, _fmt(zero), _fmt(zero ^ want)), sample={"function": f.qualname, "zero_for": _fmt(zero)})
-        # hashOutputs
-        f = ctx.func(rel, cls + "._hash_outputs")
-        fa, w, exits = _finite(ctx, f)
-        cells += fa.evaluated
-        zero_may, nonzero_may = set(), set()
-        for e in exits:
-            if e.kind == "return":
-                if _is_zero32(ctx, f, e.value):
-                    zero_may |= _set(fa, e.cond)
-                else:
-                    nonzero_may |= _set(fa, e.cond)
-        zero_must = set(DOM) - nonzero_may
-        ctx.check(zero_must == NONE, "outputs-none:%s" % cls, ctx.where(f),
-                  "%s._hash_outputs is unconditionally zero for %s; BIP143 requires exactly the NONE types %s (difference %s)"
-                  % (cls, _fmt(zero_must), _fmt(NONE), _fmt(zero_must ^ NONE)), sample={"function": f.qualname, "always_zero_for": _fmt(zero_must)})
-        ctx.check(zero_may == NONE | SINGLE, "outputs-single-zero:%s" % cls, ctx.where(f),
-                  "%s._hash_outputs can be zero for %s; BIP143: NONE, and SINGLE without a matching output (difference %s)" % (cls, _fmt(zero_may), _fmt(zero_may ^ (NONE | SINGLE))))
-        slices = [(st, r) for st, r in w.visits if isinstance(st, ast.Assign) and isinstance(st.value, ast.Subscript) and isinstance(st.value.slice, ast.Slice)]
-        ok = len(slices) == 1 and _set(fa, slices[0][1]) == SINGLE
-        ctx.check(ok, "outputs-single-slice:%s" % cls, ctx.where(f), "%s._hash_outputs restricts the outputs to the one at the input index for %s, expected the SINGLE types"
-                  % (cls, [_fmt(_set(fa, r)) for st, r in slices]))
-        if ok:
-            sl = slices[0][0].value.slice
-            idx = f.params()[2]
-            ctx.check(norm(sl.lower) == idx and norm(sl.upper) in ("%s + 1" % idx, "1 + %s" % idx), "outputs-single-index:%s" % cls, ctx.where(f, slices[0][0]),
-                      "%s._hash_outputs: SINGLE commits to outputs[%s:%s], expected [idx:idx+1]" % (cls, norm(sl.lower), norm(sl.upper)))
-            # zero iff idx >= len(txs_out)
-            z = [e for e in exits if e.kind == "return" and _is_zero32(ctx, f, e.value) and any("len(" in o for o in gi.f_opaques(e.cond))]
-            ctx.check(len(z) == 1 and any(o in ("%s >= len(txs_out)" % idx, "len(txs_out) <= %s" % idx) for o in gi.f_opaques(z[0].cond)), "outputs-single-bound:%s" % cls, ctx.where(f),
-                      "%s._hash_outputs: SINGLE is zero under %s, expected idx >= len(txs_out)" % (cls, [gi.f_opaques(e.cond) for e in z]))
+        for name, want_must, want_may, what in (("_hash_prevouts", ACP, ACP, "exactly the ANYONECANPAY types"), ("_hash_sequence", ACP | NONE | SINGLE, ACP | NONE | SINGLE, "ACP or NONE or SINGLE (base type taken with & 0x1f)"),
+                                                ("_hash_outputs", NONE, NONE | SINGLE, "NONE always, SINGLE only without a matching output")):
+            f = ctx.func(rel, "%s.%s" % (cls, name))
+            ht = f.params()[1]
+            leaf = _leaf(ctx, f, ht)
+            w = sym.walk(ctx, f, leaf, feasible=lambda r: True)
+            zero = sym.exits_formula(w, lambda e: e.kind == "return" and _is_zero32(e.value))
+            nonzero = sym.exits_formula(w, lambda e: e.kind == "return" and not _is_zero32(e.value))
+            may = set(sym.may_set(zero, leaf.univ, leaf.empty).m) if zero is not False else set()
+            must = set(DOM) - (set(sym.may_set(nonzero, leaf.univ, leaf.empty).m) if nonzero is not False else set())
+            ctx.check(must == want_must and may == want_may, "zero-hash:%s.%s" % (cls, name), ctx.where(f),
+                      "%s.%s is the zero hash always for %s and possibly for %s; BIP143: %s (differences %s / %s)" % (cls, name, _fmt(must), _fmt(may), what, _fmt(must ^ want_must), _fmt(may ^ want_may)),
+                      sample={"function": f.qualname, "always_zero_for": _fmt(must), "possibly_zero_for": _fmt(may)})
+        _refcheck(ctx, rel, cls + "._hash_outputs", "seg_hash_outputs", "outputs-form:%s" % cls, finite="hash_type", tree=_grs_tree() if rel == GRS else None)
     # legacy digest
-    f = ctx.func(BSC, "BitcoinSolutionChecker._signature_hash")
-    fa, w, exits = _finite(ctx, f)
-    cells += fa.evaluated
-    idx = f.params()[2]
-    reach = {}
-    for st, r in w.visits:
-        reach[id(st)] = r
-    empties = [(st, r) for st, r in w.visits if isinstance(st, ast.Assign) and norm(st.targets[0]) == "txs_out" and isinstance(st.value, ast.List) and not st.value.elts]
-    ok = len(empties) == 1 and _set(fa, empties[0][1]) == NONE
-    ctx.check(ok, "legacy-none", ctx.where(f), "_signature_hash drops all outputs for %s, consensus: exactly the NONE types %s" % ([_fmt(_set(fa, r)) for st, r in empties], _fmt(NONE)),
-              sample={"function": f.qualname, "outputs_emptied_for": [_fmt(_set(fa, r)) for st, r in empties]})
-    bug = [e for e in exits if e.kind == "return" and norm(e.value) in ("1 << 248", "2 ** 248")]
-    ok = len(bug) == 1 and _set(fa, bug[0].cond) == SINGLE and any(o in ("%s >= len(txs_out)" % idx, "len(txs_out) <= %s" % idx) for o in gi.f_opaques(bug[0].cond))
-    ctx.check(ok, "legacy-single-bug", ctx.where(f), "_signature_hash returns the constant 1<<248 for %s under %s; consensus: SINGLE types with input index >= number of outputs"
-              % ([_fmt(_set(fa, e.cond)) for e in bug], [gi.f_opaques(e.cond) for e in bug]))
-    pads = [(st, r) for st, r in w.visits if isinstance(st, ast.Assign) and norm(st.targets[0]) == "txs_out" and isinstance(st.value, ast.BinOp) and isinstance(st.value.op, ast.Mult)]
-    ok = len(pads) == 1 and _set(fa, pads[0][1]) == SINGLE
-    if ok:
-        v = pads[0][0].value
-        lst, cnt = (v.left, v.right) if isinstance(v.left, ast.List) else (v.right, v.left)
-        ok = isinstance(lst, ast.List) and len(lst.elts) == 1 and isinstance(lst.elts[0], ast.Call) and norm(cnt) == idx and \
-            df.const_int(lst.elts[0].args[0]) == 0xFFFFFFFFFFFFFFFF and norm(lst.elts[0].args[1]) == "b''"
-    ctx.check(ok, "legacy-single-padding", ctx.where(f), "_signature_hash: SINGLE does not blank the first idx outputs to (0xffffffffffffffff, b'')")
-    apps = [(st, r) for st, r in w.visits if isinstance(st, ast.Expr) and norm(st.value) == "txs_out.append(self.tx.txs_out[%s])" % idx]
-    ctx.check(len(apps) == 1 and _set(fa, apps[0][1]) == SINGLE, "legacy-single-own-output", ctx.where(f), "_signature_hash: SINGLE does not keep exactly output[idx]")
-    seqs = [(st, r) for st, r in w.visits if isinstance(st, ast.Assign) and isinstance(st.targets[0], ast.Attribute) and st.targets[0].attr == "sequence" and df.const_int(st.value) == 0]
-    got = set()
-    for st, r in seqs:
-        got |= _set(fa, r)
-    ctx.check(got == NONE | SINGLE and len(seqs) == 2, "legacy-sequence-blanking", ctx.where(f),
-              "_signature_hash zeroes the other inputs' sequence numbers for %s; consensus: exactly NONE and SINGLE (difference %s)" % (_fmt(got), _fmt(got ^ (NONE | SINGLE))))
-    for st, r in seqs:
-        ops = gi.f_opaques(r)
-        ctx.check(any(o in ("i != %s" % idx, "%s != i" % idx) for o in ops), "legacy-sequence-others-only", ctx.where(f, st), "_signature_hash zeroes the sequence of the signed input too (guards %s)" % ops)
-    acps = [(st, r) for st, r in w.visits if isinstance(st, ast.Assign) and norm(st.targets[0]) == "txs_in" and norm(st.value) == "[txs_in[%s]]" % idx]
-    ctx.check(len(acps) == 1 and _set(fa, acps[0][1]) == ACP, "legacy-anyonecanpay", ctx.where(f),
-              "_signature_hash keeps only the signed input for %s; consensus: exactly the ANYONECANPAY types" % [_fmt(_set(fa, r)) for st, r in acps])
-    # fork-id coins refuse types without the fork-id bit
-    for rel, cls in ((BCH, "BcashSolutionChecker"), (BTG, "BgoldSolutionChecker")):
+    _refcheck(ctx, BSC, "BitcoinSolutionChecker._signature_hash", "bsc_signature_hash", "legacy-blanking", finite="hash_type")
+    for rel, cls, refname in ((BCH, "BcashSolutionChecker", "bch_signature_hash"), (BTG, "BgoldSolutionChecker", "btg_signature_hash")):
         f = ctx.func(rel, cls + "._signature_hash")
-        fa, w, exits = _finite(ctx, f)
-        cells += fa.evaluated
-        rs = set()
-        for e in exits:
-            if e.kind == "raise":
-                rs |= _set(fa, e.cond)
+        ht = f.params()[3]
+        leaf = _leaf(ctx, f, ht)
+        w = sym.walk(ctx, f, leaf, feasible=lambda r: True)
+        fr = sym.exits_formula(w, lambda e: e.kind == "raise")
+        rs = set(sym.may_set(fr, leaf.univ, leaf.empty).m) if fr is not False else set()
         ctx.check(rs == NOFORK, "forkid-guard:%s" % cls, ctx.where(f),
-                  "%s._signature_hash refuses %s; must refuse exactly the types without the fork-id bit 0x40 (difference %s)" % (cls, _fmt(rs), _fmt(rs ^ NOFORK)),
-                  sample={"function": f.qualname, "refused": _fmt(rs)})
-        dl = [e for e in exits if e.kind == "return"]
-        ok = len(dl) == 1 and isinstance(dl[0].value, ast.Call) and df.last_attr(dl[0].value) == "_signature_for_hash_type_segwit" and \
-            [norm(a) for a in dl[0].value.args] == f.params()[1:4]
-        ctx.check(ok, "forkid-delegates:%s" % cls, ctx.where(f), "%s._signature_hash does not delegate to the BIP143 digest with (script, idx, hash_type)" % cls)
-    ctx.note("partition cells evaluated: %d" % cells)
+                  "%s._signature_hash refuses %s; must refuse exactly the types without the fork-id bit 0x40 (difference %s)" % (cls, _fmt(rs), _fmt(rs ^ NOFORK)), sample={"function": f.qualname, "refused": _fmt(rs)})
+        _refcheck(ctx, rel, cls + "._signature_hash", refname, "forkid-delegates:%s" % cls, finite=ht)
+
+
+_GRS = None
+
+
+def _grs_tree():
+    """the Bitcoin reference with double_sha256 replaced by sha256: Groestlcoin's sighash differs in nothing else"""
+    global _GRS
+    if _GRS is None:
+        import copy
+
+        class Sub(ast.NodeTransformer):
+            def visit_Name(self, n):
+                if n.id == "double_sha256":
+                    return ast.copy_location(ast.Name("sha256", n.ctx), n)
+                return n
+        _GRS = Sub().visit(copy.deepcopy(_ref()))
+        ast.fix_missing_locations(_GRS)
+    return _GRS
 
 
 # ------------------------------------------------------------------ C04.2
-def _trace(ctx, rel, name):
-    f = ctx.func(rel, name)
-    return f, ct.write_trace(f.node, "f")
-
-
 def c04_2(ctx):
-    for rel, cls, h in ((SEG, "SegwitChecker", "double_sha256"), (GRS, "GroestlcoinSolutionChecker", "sha256")):
-        f = ctx.func(SEG, "SegwitChecker._segwit_signature_preimage") if True else None
-    f, tr = _trace(ctx, SEG, "SegwitChecker._segwit_signature_preimage")
-    p = f.params()
-    script, idx, ht = p[1], p[2], p[3]
-    txin = "self.tx.txs_in[%s]" % idx
-    want = [("fmt", "L", "self.tx.version"), ("raw", None, "self._hash_prevouts(%s)" % ht), ("raw", None, "self._hash_sequence(%s)" % ht),
-            ("raw", None, txin + ".previous_hash"), ("fmt", "L", txin + ".previous_index"), ("fmt", "S", script),
-            ("fmt", "Q", "self.tx.unspents[%s].coin_value" % idx), ("fmt", "L", txin + ".sequence"),
-            ("raw", None, "self._hash_outputs(%s, %s)" % (ht, idx)), ("fmt", "L", "self.tx.lock_time"), ("fmt", "L", ht)]
-    got = [(i.kind, i.fmt, i.value) for i in tr]
-    ctx.check(got == want, "bip143-preimage", ctx.where(f),
-              "_segwit_signature_preimage writes %s; BIP143 requires version, hashPrevouts, hashSequence, outpoint, scriptCode, amount(Q), sequence, hashOutputs, locktime, hashtype in that order"
-              % [x for x in got if x not in want][:4], sample={"trace": [repr(i) for i in tr]})
-    cond = [i for i in tr if i.reach is not True or i.loop is not None]
-    ctx.check(not cond, "bip143-unconditional", ctx.where(f), "_segwit_signature_preimage: fields written conditionally or in a loop: %s" % cond[:3])
-    rets = df.returns_of(f.node)
-    ctx.check(len(rets) == 1 and norm(rets[0].value) == "f.getvalue()", "bip143-returns-stream", ctx.where(f), "_segwit_signature_preimage does not return the whole stream")
-    for rel, cls, h in ((SEG, "SegwitChecker", "double_sha256"), (GRS, "GroestlcoinSolutionChecker", "sha256")):
-        for name, want_items, it_text in (
-                ("_hash_prevouts", [("raw", None, "tx_in.previous_hash"), ("fmt", "L", "tx_in.previous_index")], "tx_in in self.tx.txs_in"),
-                ("_hash_sequence", [("fmt", "L", "tx_in.sequence")], "tx_in in self.tx.txs_in"),
-                ("_hash_outputs", [("fmt", "Q", "tx_out.coin_value"), ("fmt", "S", "tx_out.script")], None)):
-            g, tr = _trace(ctx, rel, "%s.%s" % (cls, name))
-            got = [(i.kind, i.fmt, i.value) for i in tr]
-            ok = got == want_items and all(i.loop is not None for i in tr) and (it_text is None or all(i.loop == it_text for i in tr))
-            ctx.check(ok, "subhash-trace:%s.%s" % (cls, name), ctx.where(g), "%s.%s streams %s per element (loop %s); expected %s" % (cls, name, got, [i.loop for i in tr][:1], want_items),
-                      sample={"function": g.qualname, "trace": [repr(i) for i in tr]})
-            rets = [r for r in df.returns_of(g.node) if not _is_zero32(ctx, g, r.value)]
-            ok = len(rets) == 1 and norm(rets[0].value) == "%s(f.getvalue())" % h
-            ctx.check(ok, "subhash-digest:%s.%s" % (cls, name), ctx.where(g), "%s.%s does not return %s(f.getvalue())" % (cls, name, h))
-        g = ctx.func(rel, cls + "._signature_for_hash_type_segwit")
-        rets = df.returns_of(g.node)
-        pp = g.params()
-        want_t = "from_bytes_32(%s(self._segwit_signature_preimage(%s, %s, %s)))" % (h, pp[1], pp[2], pp[3])
-        ctx.check(len(rets) == 1 and norm(rets[0].value) == want_t, "bip143-digest:%s" % cls, ctx.where(g), "%s._signature_for_hash_type_segwit is not %s" % (cls, want_t))
+    _refcheck(ctx, SEG, "SegwitChecker._segwit_signature_preimage", "seg_preimage", "bip143-preimage")
+    for rel, cls, tree in ((SEG, "SegwitChecker", None), (GRS, "GroestlcoinSolutionChecker", _grs_tree())):
+        for name, refname in (("_hash_prevouts", "seg_hash_prevouts"), ("_hash_sequence", "seg_hash_sequence"), ("_hash_outputs", "seg_hash_outputs"), ("_signature_for_hash_type_segwit", "seg_signature_for_hash_type")):
+            _refcheck(ctx, rel, "%s.%s" % (cls, name), refname, "subhash:%s.%s" % (cls, name), finite="hash_type" if name.startswith("_hash") else None, tree=tree)
 
 
 # ------------------------------------------------------------------ C04.3
 def c04_3(ctx):
-    f = ctx.func(BSC, "BitcoinSolutionChecker._tx_in_for_idx")
-    p = f.params()
-    w = GuardWalker(ru.opaque)
-    ex = w.run(f.node.body)
-    rets = [e for e in ex if e.kind == "return"]
-    ok = len(rets) == 2
-    if ok:
-        own = [e for e in rets if gi.f_equiv(e.cond, ("op", "%s == %s" % (p[1], p[4]))) or gi.f_equiv(e.cond, ("op", "%s == %s" % (p[4], p[1])))]
-        oth = [e for e in rets if e not in own]
-        ok = len(own) == 1 and len(oth) == 1
-        if ok:
-            def args(e):
-                return [norm(a) for a in e.value.args] if isinstance(e.value, ast.Call) else None
-            t = p[2]
-            ok = args(own[0]) == ["%s.previous_hash" % t, "%s.previous_index" % t, p[3], "%s.sequence" % t] and \
-                args(oth[0]) == ["%s.previous_hash" % t, "%s.previous_index" % t, "b''", "%s.sequence" % t] and \
-                norm(own[0].value.func) == "self.tx.TxIn" and norm(oth[0].value.func) == "self.tx.TxIn"
-    ctx.check(ok, "legacy-input-copies", ctx.where(f), "_tx_in_for_idx does not build fresh inputs with the subscript at the signed index and empty scripts elsewhere",
-              sample={"returns": [(repr(e.cond), norm(e.value)) for e in rets]})
-    f = ctx.func(BSC, "BitcoinSolutionChecker._signature_hash")
-    defs = df.single_defs(f.node)
-    p = f.params()
-    fin = [r for r in df.returns_of(f.node) if "hash(" in norm(r.value)]
-    ok = len(fin) == 1 and norm(fin[0].value) == "from_bytes_32(tmp_tx.hash(hash_type=%s))" % p[3]
-    ctx.check(ok, "legacy-digest-of-copy", ctx.where(f), "_signature_hash does not return from_bytes_32(tmp_tx.hash(hash_type=hash_type))")
-    tmp = [st for st in body_nodes(f.node) if isinstance(st, ast.Assign) and norm(st.targets[0]) == "tmp_tx"]
-    ok = len(tmp) == 1 and norm(tmp[0].value) == "self.tx.__class__(self.tx.version, txs_in, txs_out, self.tx.lock_time)"
-    ctx.check(ok, "legacy-copy-fields", ctx.where(f), "_signature_hash: the hashed copy is `%s`, expected (version, blanked inputs, blanked outputs, lock_time)" % (norm(tmp[0].value) if tmp else None))
-    comp = [st for st in body_nodes(f.node) if isinstance(st, ast.Assign) and norm(st.targets[0]) == "txs_in" and isinstance(st.value, ast.ListComp)]
-    ok = len(comp) == 1 and norm(comp[0].value.elt) == "self._tx_in_for_idx(i, tx_in, %s, %s)" % (p[1], p[2]) and norm(comp[0].value.generators[0].iter) == "enumerate(self.tx.txs_in)"
-    ctx.check(ok, "legacy-inputs-rebuilt", ctx.where(f), "_signature_hash does not rebuild every input through _tx_in_for_idx(i, tx_in, script, idx)")
-    sep = [st for st in f.node.body if isinstance(st, ast.Assign) and norm(st.targets[0]) == p[1]]
-    ok = len(sep) >= 1 and norm(sep[0].value) == "self.delete_subscript(%s, self.ScriptTools.compile('OP_CODESEPARATOR'))" % p[1]
-    ctx.check(ok, "legacy-codeseparator", ctx.where(f), "_signature_hash does not strip OP_CODESEPARATOR from the script code first")
-    # Tx.hash appends the hash type as a 4-byte LE integer to the witness-stripped stream
-    for rel, cls, h in ((TX, "Tx", "double_sha256"), ("pycoin/coins/groestlcoin/Tx.py", "Tx", "sha256")):
-        g = ctx.func(rel, cls + ".hash")
-        tr = ct.write_trace(g.node, "s")
-        got = [(i.kind, i.fmt, i.value, ct.fmt_formula(i.reach)) for i in tr]
-        want = [("call", "stream(include_witness_data=False)", "self", "True"), ("fmt", "L", g.params()[1], "%s is not None" % g.params()[1])]
-        ctx.check(got == want, "tx-hash-trace:%s" % g.module.name, ctx.where(g), "%s.hash streams %s; expected the witness-stripped transaction then L hash_type when given" % (g.module.name, got),
-                  sample={"function": g.qualname, "trace": got})
-        rets = df.returns_of(g.node)
-        ctx.check(len(rets) == 1 and norm(rets[0].value) == "%s(s.getvalue())" % h, "tx-hash-digest:%s" % g.module.name, ctx.where(g), "%s.hash is not %s of the stream" % (g.module.name, h))
-    # FindAndDelete
-    g = ctx.func(BSC, "BitcoinSolutionChecker._make_sighash_f")
-    inner = ctx.p.functions.get(g.qualname + ".sig_for_hash_type_f")
-    if inner is None:
-        raise AnalysisError("_make_sighash_f: inner function not found")
-    ip = inner.params()
-    txt = norm(inner.node)
-    ok = "script = %s.script[%s.begin_code_hash:]" % (ip[2], ip[2]) in txt and "for sig_blob in %s:" % ip[1] in txt and \
-        "script = self._delete_signature(script, sig_blob)" in txt and "return self._signature_hash(script, tx_in_idx, %s)" % ip[0] in txt
-    ctx.check(ok, "find-and-delete", ctx.where(inner), "legacy sighash closure does not slice at begin_code_hash, delete each signature push and hash with (script, idx, hash_type)")
-    for name in ("_delete_signature", "delete_subscript"):
-        d = ctx.func(BSC, "BitcoinSolutionChecker." + name)
-        txt = norm(d.node)
-        ok = "get_opcodes(script)" in txt and "section = script[pc:new_pc]" in txt and "if section != subscript:" in txt and "new_script.extend(section)" in txt
-        ctx.check(ok, "opcode-aligned-delete:%s" % name, ctx.where(d), "%s does not delete opcode-aligned sections equal to the subscript" % name)
-    d = ctx.func(BSC, "BitcoinSolutionChecker._delete_signature")
-    ctx.check("subscript = self.ScriptTools.compile_push_data_list([sig_blob])" in norm(d.node), "delete-signature-push-form", ctx.where(d), "_delete_signature does not delete the canonical push of the signature")
+    _refcheck(ctx, BSC, "BitcoinSolutionChecker._tx_in_for_idx", "bsc_tx_in_for_idx", "legacy-input-copies")
+    _refcheck(ctx, BSC, "BitcoinSolutionChecker._signature_hash", "bsc_signature_hash", "legacy-digest-of-copy", finite="hash_type")
+    _refcheck(ctx, TX, "Tx.hash", "tx_hash", "tx-hash:bitcoin")
+    _refcheck(ctx, "pycoin/coins/groestlcoin/Tx.py", "Tx.hash", "grs_tx_hash", "tx-hash:groestlcoin")
+    _refcheck(ctx, BSC, "BitcoinSolutionChecker._make_sighash_f.sig_for_hash_type_f", "bsc_sig_for_hash_type_f", "find-and-delete")
+    _refcheck(ctx, BSC, "BitcoinSolutionChecker._delete_signature", "bsc_delete_signature", "opcode-aligned-delete:_delete_signature")
+    _refcheck(ctx, BSC, "BitcoinSolutionChecker.delete_subscript", "bsc_delete_subscript", "opcode-aligned-delete:delete_subscript")
 
 
 # ------------------------------------------------------------------ C04.4
@@ -299,13 +144,7 @@ def c04_4(ctx):
     cv = it.get(f.module.name, "BgoldSolutionChecker")
     fid = it.getattr(cv, "FORKID_BTG")
     ctx.check(fid == 79, "btg-forkid", ctx.where(f), "Bitcoin Gold fork id evaluates to %r, expected 79" % (fid,))
-    augs = [st for st in f.node.body if isinstance(st, ast.AugAssign) and norm(st.target) == p[3]]
-    ok = len(augs) == 1 and isinstance(augs[0].op, ast.BitOr) and norm(augs[0].value) in ("self.FORKID_BTG << 8", "79 << 8")
-    ctx.check(ok, "btg-fold", ctx.where(f), "BTG digest does not fold the fork id as hash_type |= FORKID << 8 before the BIP143 digest")
-    rets = df.returns_of(f.node)
-    ok = len(rets) == 1 and norm(rets[0].value) == "from_bytes_32(double_sha256(self._segwit_signature_preimage(%s, %s, %s)))" % (p[1], p[2], p[3]) and \
-        (not augs or augs[0].lineno < rets[0].lineno)
-    ctx.check(ok, "btg-digest", ctx.where(f), "BTG digest is not double_sha256 of the BIP143 pre-image with the folded hash type")
+    _refcheck(ctx, BTG, "BgoldSolutionChecker._signature_for_hash_type_segwit", "btg_signature_for_hash_type", "btg-fold")
     # BCH inherits the unfolded BIP143 digest
     c = ctx.p.cls(BCH, "BcashSolutionChecker")
     ctx.check("_signature_for_hash_type_segwit" not in c.methods and "_segwit_signature_preimage" not in c.methods, "bch-forkid-zero", "%s:%d" % (BCH, c.node.lineno),
@@ -318,32 +157,12 @@ def c04_4(ctx):
 
 # ------------------------------------------------------------------ C04.5
 def c04_5(ctx):
-    import copy
-
-    class Sub(ast.NodeTransformer):
-        def visit_Name(self, n):
-            if n.id == "double_sha256":
-                return ast.copy_location(ast.Name("sha256", n.ctx), n)
-            return n
-    for name in ("_hash_prevouts", "_hash_sequence", "_hash_outputs", "_signature_for_hash_type_segwit"):
-        a = ctx.func(SEG, "SegwitChecker." + name)
-        b = ctx.func(GRS, "GroestlcoinSolutionChecker." + name)
-
-        def strip(fn):
-            n = copy.deepcopy(fn.node)
-            n.returns = None
-            for x in n.args.args:
-                x.annotation = None
-            for sub in ast.walk(n):
-                if hasattr(sub, "type_comment"):
-                    sub.type_comment = None
-            return n
-        ta = norm(Sub().visit(strip(a)))
-        tb = norm(strip(b))
-        ctx.check(ta == tb, "grs-clone:%s" % name, ctx.where(b), "GroestlcoinSolutionChecker.%s differs from the Bitcoin method modulo double_sha256 -> sha256" % name,
-                  sample={"method": name, "equal_modulo": "double_sha256 -> sha256"})
+    for name, refname in (("_hash_prevouts", "seg_hash_prevouts"), ("_hash_sequence", "seg_hash_sequence"), ("_hash_outputs", "seg_hash_outputs"), ("_signature_for_hash_type_segwit", "seg_signature_for_hash_type")):
+        _refcheck(ctx, GRS, "GroestlcoinSolutionChecker." + name, refname, "grs-clone:%s" % name, finite="hash_type" if name.startswith("_hash") else None, tree=_grs_tree())
     h = ctx.func("pycoin/coins/groestlcoin/hash.py", "sha256")
-    ctx.check("hashlib.sha256(data).digest()" in norm(h.node), "grs-sha256-single", ctx.where(h), "groestlcoin.hash.sha256 is not a single SHA256")
+    w = sym.walk(ctx, h)
+    rr = [e for e in w.exits if e.kind == "return" and e.value is not None]
+    ctx.check(len(rr) == 1 and norm(rr[0].value) in ("hashlib.sha256(%s).digest()" % h.params()[0], "bytes_as_revhex(hashlib.sha256(%s).digest())" % h.params()[0]), "grs-sha256-single", ctx.where(h), "groestlcoin.hash.sha256 is not a single SHA256")
 
 
 # ------------------------------------------------------------------ C04.6
@@ -369,11 +188,11 @@ def c04_6(ctx):
 
 
 OBLIGATIONS = [
-    Ob("C04.1", "branch partition of all 256 hash types in every sighash function (legacy, BIP143, GRS, BCH, BTG)", c04_1, floor=26, engines="GI(finite),CE",
+    Ob("C04.1", "branch partition of all 256 hash types in every sighash function (legacy, BIP143, GRS, BCH, BTG)", c04_1, floor=11, engines="SYM,GI(finite)",
        breaks_if="hash types 0x06, 0x22, 0x43, 0xc3 ... (a mask other than 0x1f reclassifies them); 0x80-0xbf on fork-id coins", exhaustive=True),
-    Ob("C04.2", "BIP143 pre-image and sub-hash field traces", c04_2, floor=16, engines="CT", breaks_if="every witness input (field order / width / omitted amount)"),
-    Ob("C04.3", "legacy blanking: fresh input copies, digest of the copy, hash type appended, FindAndDelete", c04_3, floor=12, engines="DF,CT"),
-    Ob("C04.4", "fork-id folding (BTG 79<<8, BCH 0)", c04_4, floor=6, engines="CE,PM"),
-    Ob("C04.5", "Groestlcoin methods equal the Bitcoin ones modulo double_sha256 -> sha256", c04_5, floor=5, engines="SIB"),
+    Ob("C04.2", "BIP143 pre-image and sub-hash field traces", c04_2, floor=9, engines="SYM", breaks_if="every witness input (field order / width / omitted amount)"),
+    Ob("C04.3", "legacy blanking: fresh input copies, digest of the copy, hash type appended, FindAndDelete", c04_3, floor=7, engines="SYM"),
+    Ob("C04.4", "fork-id folding (BTG 79<<8, BCH 0)", c04_4, floor=5, engines="CE,PM,SYM"),
+    Ob("C04.5", "Groestlcoin methods equal the Bitcoin ones modulo double_sha256 -> sha256", c04_5, floor=5, engines="SYM,SIB"),
     Ob("C04.6", "no write with a non-fresh receiver in the sighash call tree", c04_6, floor=22, engines="EF", breaks_if="sequence zeroed on the real inputs; memo kept on the checker"),
 ]
